@@ -42,6 +42,8 @@ def nest(shape, n, leaf="1"):
 
 def gen(ctx):
     rng = ctx.rng
+    for _src in G.corner_programs():
+        yield Case("CMP", "%s - -" % G.hx(_src), tags=("corner-grid",))
     n = 30000 if ctx.thorough else 1500
     for i in range(n):
         p = G.gen_program(rng)
